@@ -32,8 +32,9 @@ from ..streams import TracedStream
 
 LEVEL = "exploration"
 RULE = ("law instances = every `<-->` line found in core.py docstrings and docs/*.rst (bound by evaluating the documentation text) x parameter "
-        "instantiations (widths 1..16 bytes, signed, swapped, counts, moduli, conditions true/false, several sub-constructs and enum classes) + fixed "
-        "table of alias/operator/Hex laws; inputs: all byte strings of the relevant length-1..length+1 exhaustively up to 2 bytes, boundary+random "
+        "instantiations (widths 1..16 bytes, signed, swapped, counts, moduli, conditions true/false, several sub-constructs and enum classes incl. classes with "
+        "aliases and named multi-bit combinations) + fixed table of alias/operator/Hex laws (operators also with operands that have members but are not bare "
+        "Sequences/Structs); inputs: all byte strings of the relevant length-1..length+1 exhaustively up to 2 bytes, boundary+random "
         "beyond; values incl. boundaries, out-of-range, wrong type, None. non-trivial = a case rejected by both sides or on a width boundary; "
         "distinct by (law instance, case)")
 ASSUMPTIONS = ["exception *types* of the two sides may differ; only accept/reject and the value/bytes are compared",
